@@ -88,8 +88,9 @@ class PredictWorld:
             self.setup()
         return res
 
-    def teams(self, order=None, bump=None, player_order=None):
-        """fresh rating objects; bump = (i, j, d) adds d to player j of team i"""
+    def teams(self, order=None, bump=None, player_order=None, alias=None):
+        """fresh rating objects; bump = (i, j, d) adds d to player j of team i;
+        alias = {k: i}: slot k holds the *same list object* as slot i"""
         R = self.S.rating_cls
         ts = []
         for i, row in enumerate(self.prior):
@@ -101,6 +102,9 @@ class PredictWorld:
             if player_order and i in player_order:
                 t = [t[k] for k in player_order[i]]
             ts.append(t)
+        if alias:
+            for k, i in alias.items():
+                ts[k] = ts[i]
         if order is not None:
             ts = [ts[k] for k in order]
         return ts
@@ -123,13 +127,29 @@ class PredictWorld:
     def phi_apps(self):
         return list(self.ctx.apps.get("Phi", {}).values())
 
-    def phi_monotone(self):
-        """A-Phi monotonicity instances for all pairs of Phi applications"""
+    def phi_monotone(self, P=None):
+        """A-Phi monotonicity instances.  With a prover, only between applications whose canonical
+        arguments share their sqrt atoms (the same pair of teams): the instances the obligations
+        need, n(n-1)/2 groups of a few applications instead of all pairs of all applications."""
         out = []
         apps = self.phi_apps()
-        for (a, xa), (b, xb) in itertools.permutations(apps, 2):
-            if not z3.eq(a, b):
-                out.append(z3.Implies(xa >= xb, a >= b))
+        if P is None or len(apps) <= 8:
+            for (a, xa), (b, xb) in itertools.permutations(apps, 2):
+                if not z3.eq(a, b):
+                    out.append(z3.Implies(xa >= xb, a >= b))
+            return out
+        groups = {}
+        for (a, xa) in apps:
+            try:
+                p = P.N.norm(xa)
+                key = frozenset(at for at in p.atoms() if P.N.atoms.info[at][0] == "sqrt")
+            except Exception:  # noqa: BLE001
+                key = None
+            groups.setdefault(key, []).append((a, xa))
+        for key, lst in groups.items():
+            for (a, xa), (b, xb) in itertools.permutations(lst, 2):
+                if not z3.eq(a, b):
+                    out.append(z3.Implies(xa >= xb, a >= b))
         return out
 
 
